@@ -16,6 +16,12 @@ CLAIMS = {
  "C04": dict(text="Error discipline decided exactly, cancellation structurally: a pending-error may-dataflow over every repository function reachable (VTA) from negotiateSession (plus all feature closures) proves that no path overwrites or drops a non-nil error assigned from a call; every unassigned error result is in a reasoned accept table and success returns after writes are preceded by an explicit Flush; state bits are applied only after a nil error; the deadline watcher is started unconditionally for net.Conn transports and Expect polls ctx before each read; no bare assertion / explicit panic in the negotiation functions. Holds for every fault index because it is a fact about all paths. Level 'other': does not decide timing of cancellation against blocking I/O.",
              ref="DESIGN.md section 2, C04", tech="static analysis: pending-error (may) dataflow over go/cfg, VTA call-graph reachability, must-pass-through, accept tables",
              note="Trusted: VTA call graph soundness for the negotiation entry set, net.Conn deadline semantics; not decided: timing, goroutine liveness, transports without deadlines."),
+ "C05": dict(text="Structural necessary conditions decided on every path: must-lockset dataflow shows every use of the session encoder happens under the output lock (with acquire-wrapper summaries for TokenWriter and the typestate of the closer types), lock pairing, start < payload < end < flush order on every success path of send, flush on every success path of the marshal helpers, no dropped parameter in the transmit API, the attribute-completion guards of the stanza encoder with exact guard sets and name tables, kind test and id completion before any transmit, closed list of raw-connection writers. Level 'other': decides non-interleaving and completeness of the write sequence by code shape for every number of goroutines; does not decide that the bytes denote the arguments.",
+             ref="DESIGN.md section 3, C05", tech="static analysis: must-lockset dataflow with wrapper summaries, typestate of closer types, must-pass-through ordering, exact-guard-set dominance, boolean table extraction",
+             note="Trusted: sync.Mutex semantics, xml.Encoder/xmlstream.Copy contracts; locks identified by field class. Known findings F6/F7 (open) listed in known_findings.json."),
+ "C10": dict(text="Structural necessary conditions decided on every path: closeSession writes the closing tag only behind the closed-bit test, after setting the bit, with both locks held at every call site and nowhere else; every function that writes through the session encoder passes the closed-bit test under stateMutex with ErrOutputStreamClosed on the other edge; reads are guarded by the input-closed bit; Serve's deferred shutdown, io.EOF mapping and sendError ordering/locking; lock discipline for Session.state and the close-deadline context; typestate of the lock-owning closers (Close unlocks once). Level 'other': the lock/guard shape that idempotent, final closing needs in every interleaving; timing (deadline expiry) is not decided.",
+             ref="DESIGN.md section 3, C10", tech="static analysis: edge-dominance, must-lockset dataflow, requires-lock call-site summaries, typestate, must-pass-through",
+             note="Trusted: sync primitives, net.Conn deadlines. Known finding F32 (open): stream error not flushed before the closing tag."),
 }
 
 def main():
